@@ -207,6 +207,11 @@ func (reader *H265Reader) NextNAL() (*NAL, error) {
 	reader.nalBuffer = nil
 	nal.parseHeader()
 
+	// The unit buffered when the stream ended has not been filtered yet.
+	if reader.shouldSkipNAL(nal.NalUnitType) {
+		return nil, io.EOF
+	}
+
 	return nal, nil
 }
 
